@@ -1,3 +1,4 @@
+mod detect;
 mod input_replay;
 mod mem;
 mod obs;
@@ -18,6 +19,7 @@ fn main() {
     match cmd {
         "input-replay" => input_replay::run(&arg(2), num(3, 6) as usize, num(4, 2_000_000)),
         "record-obs" => scen::record(&arg(2), &arg(3), num(4, 50)),
+        "record-detect" => detect::record(&arg(2), num(3, 50)),
         "record-mem" => {
             let sizes: Vec<usize> = arg(4).split(',').filter_map(|s| s.parse().ok()).collect();
             mem::record(&arg(2), num(3, 20000), if sizes.is_empty() { &[100] } else { &sizes })
